@@ -16,6 +16,9 @@ type OffsetPaginator[ResourceType, OptionsType any] struct {
 //nolint:unused
 func (o OffsetPaginator[ResourceType, OptionsType]) Paginate(sb *bun.SelectQuery) (*bun.SelectQuery, error) {
 
+	if o.query.Order == nil {
+		return nil, NewErrInvalidQuery("invalid cursor: missing order")
+	}
 	paginationColumn := o.query.Column
 	originalOrder := *o.query.Order
 
